@@ -32,8 +32,8 @@ REAL_ONLY = ("GDE3", "OMOPSO", "SMPSO", "CMAES")          # arithmetic on the va
 MIN_ONLY = ("NSGAIII", "MOEAD")                            # constructor raises PlatypusError for MAXIMIZE
 SINGLE_OBJ = ("GA", "ES")
 MUTATOR_ALGS = ("ES", "PAES", "SMPSO")                     # take a Mutation (arity 1) where others take a variator
-KINDS = ("real", "integer", "binary", "perm", "subset", "binint", "realtiny", "intpow2")
-REAL_KINDS = ("real", "realtiny", "real6")     # real6: only in the particle-swarm stress runs
+KINDS = ("real", "integer", "binary", "perm", "subset", "binint", "realtiny", "intpow2", "scaled", "realwide")
+REAL_KINDS = ("real", "realtiny", "real6", "scaled", "realwide")     # real6: only in the particle-swarm stress runs
 
 # ----------------------------------------------------------------------------
 # user problems: RAW functions (pure, deterministic) and declared constraints
@@ -42,6 +42,8 @@ CONS_DECL = {   # "cmp" style: only == <= >= != (exact, shipped to Coq); "strict
     "real": ["<=0", ">=0.5"],
     "realtiny": ["<=0", ">=0.5"],
     "real6": ["<=0", ">=0.5"],
+    "scaled": ["<=0", ">=0.5"],
+    "realwide": ["<=0", ">=0.5"],
     "intpow2": ["<=0", "!=3"],
     "integer": ["<=0", "!=2"],
     "binary": ["<=0", ">=1"],
@@ -72,6 +74,22 @@ def raw_real6(x):
     f2 = g * (1.0 - math.sqrt(x[0] / g))
     c = [math.floor((x[0] + x[1]) * 8) / 8 - 1.5, math.floor(x[2] * 4) / 4]
     return [f1, f2], c
+
+
+def raw_scaled(x):
+    # b in [0,1] (plain Real), a in [0,1] (stored internally as a*1024), c in [-8,8] (stored internally as c/8)
+    b, a, c = x
+    o = [(a - 0.3) * (a - 0.3) + b + 0.125 * abs(c), (a - 0.7) * (a - 0.7) + (1.0 - b) * (1.0 - b) + (c * 0.125 - 0.5) * (c * 0.125 - 0.5)]
+    k = [math.floor(a * 8) / 8 - 0.25, math.floor(c) / 4]
+    return o, k
+
+
+def raw_realwide(x):
+    # very wide but finite bounds (1e200, 1.7e308) next to an ordinary variable; no pow (OverflowError), products only
+    u, v, w = x
+    o = [abs(u) * 1e-200 + w, abs(v) * 1e-308 + (1.0 - w) * (1.0 - w)]
+    k = [(0.0 if w != w else math.floor(w * 8) / 8) - 0.25, 0.75 if u > 0 else 0.25]
+    return o, k
 
 
 def raw_intpow2(x):
@@ -114,7 +132,7 @@ def raw_subset(x):
     return o, c
 
 
-RAW = {"real": raw_real, "realtiny": raw_realtiny, "real6": raw_real6, "intpow2": raw_intpow2, "integer": raw_integer, "binary": raw_binary, "binint": raw_binint,
+RAW = {"scaled": raw_scaled, "realwide": raw_realwide, "real": raw_real, "realtiny": raw_realtiny, "real6": raw_real6, "intpow2": raw_intpow2, "integer": raw_integer, "binary": raw_binary, "binint": raw_binint,
        "perm": raw_perm, "subset": raw_subset}
 
 
@@ -130,6 +148,11 @@ def make_types(kind):
         "real": lambda: [Real(-1, 2), Real(0, 1)],
         "realtiny": lambda: [Real(0.0, 1e-15), Real(-1e-16, 1e-16)],
         "real6": lambda: [Real(0.0, 1.0) for _ in range(6)],
+        # a user-defined type with its own encoding (plain Real first, so the library picks its Real defaults)
+        "scaled": lambda: [Real(0.0, 1.0), ScaledReal(0.0, 1024.0, 10), ScaledReal(-1.0, 1.0, -3)],
+        # very wide but finite bounds whose WIDTH is still finite (with +-1.7e308 the width max-min overflows and
+        # Real.rand itself returns inf on the unchanged code: probed separately, see wide_rand_probe)
+        "realwide": lambda: [Real(-1e200, 1e200), Real(-8e307, 8e307), Real(0.0, 1.0)],
         # ranges whose number of values is a power of two: every code of nbits bits is used
         "intpow2": lambda: [Integer(0, 7), Integer(-8, 7), Integer(3, 4)],
         "integer": lambda: [Integer(-3, 5), Integer(0, 6)],
@@ -164,7 +187,11 @@ class LoggedFunction:
 
     def __call__(self, variables):
         args = list(variables)
-        o, c = raw_eval(self.kind, self.nobjs, self.ncons, args)
+        try:
+            o, c = raw_eval(self.kind, self.nobjs, self.ncons, args)
+        except Exception:
+            _log_call(args, None)          # the argument vector is logged even if the user code cannot digest it
+            raise
         _log_call(args, (tuple(o), tuple(c)))
         if self.ncons > 0:
             return o, c
@@ -172,6 +199,29 @@ class LoggedFunction:
 
 
 from platypus import Problem as _Problem   # the check runs with PYTHONPATH = the repository under test
+from platypus import Real as _Real
+
+
+class ScaledReal(_Real):
+    """A USER-DEFINED variable type (the Type interface rand/encode/decode is public API): a real value v stored
+    internally as v * 2**k (exact in binary floating point).  min_value/max_value bound the INTERNAL representation,
+    which is what the Real operators work on; the problem function must receive the decoded value e / 2**k."""
+
+    def __init__(self, min_internal, max_internal, k):
+        super().__init__(min_internal, max_internal)
+        self.k = k
+
+    def encode(self, value):
+        return value * 2.0 ** self.k
+
+    def decode(self, value):
+        return value / 2.0 ** self.k
+
+    def decoded_bounds(self):
+        return self.min_value / 2.0 ** self.k, self.max_value / 2.0 ** self.k
+
+    def __str__(self):
+        return "ScaledReal(%f, %f, %d)" % (self.min_value, self.max_value, self.k)
 
 
 class SubProblem(_Problem):
@@ -183,7 +233,11 @@ class SubProblem(_Problem):
 
     def evaluate(self, solution):
         args = list(solution.variables[:])
-        o, c = raw_eval(self.kind, self.nobjs, self.nconstrs, args)
+        try:
+            o, c = raw_eval(self.kind, self.nobjs, self.nconstrs, args)
+        except Exception:
+            _log_call(args, None)
+            raise
         _log_call(args, (tuple(o), tuple(c)))
         solution.objectives[:] = o
         solution.constraints[:] = c
@@ -280,12 +334,13 @@ def in_domain(types, args):
         return "wrong number of variables: %d for %d types" % (len(args), len(types))
     for i, (t, v) in enumerate(zip(types, args)):
         if isinstance(t, Real):
+            lo, hi = t.decoded_bounds() if isinstance(t, ScaledReal) else (t.min_value, t.max_value)
             if isinstance(v, bool) or not isinstance(v, (int, float)):
                 return "variable %d: %r is not a number" % (i, v)
             if v != v:
                 return "variable %d is NaN" % i
-            if not (t.min_value <= v <= t.max_value):
-                return "variable %d = %r outside [%r, %r]" % (i, v, t.min_value, t.max_value)
+            if not (lo <= v <= hi):
+                return "variable %d = %r outside [%r, %r]%s" % (i, v, lo, hi, " (the decoded bounds of %s)" % t if isinstance(t, ScaledReal) else "")
         elif isinstance(t, Integer):
             if isinstance(v, bool) or not isinstance(v, int):
                 return "variable %d: %r is not an int" % (i, v)
@@ -315,6 +370,10 @@ def encoded_in_domain(types, variables):
             if not isinstance(v, (list, tuple)) or len(v) != t.nbits or not all(isinstance(b, bool) for b in v):
                 return "encoded Integer %r is not a list of %d booleans" % (v, t.nbits)
             dec.append(t.min_value)
+        elif isinstance(t, ScaledReal):
+            if isinstance(v, bool) or not isinstance(v, (int, float)) or v != v or not (t.min_value <= v <= t.max_value):
+                return "internal value %r of %s outside [%r, %r]" % (v, t, t.min_value, t.max_value)
+            dec.append(t.decode(v))
         else:
             dec.append(v)
     return in_domain(types, dec)
@@ -399,7 +458,7 @@ def explicit_operator(cfg, want_mutator):
     """an explicitly supplied operator (index cfg['variator'] = 'explicit:<i>')"""
     from platypus import (GAOperator, SBX, PM, UM, PCX, UNDX, SPX, DifferentialEvolution, HUX, BitFlip, PMX, Swap,
                           Insertion, SSX, Replace, CompoundOperator, CompoundMutation)
-    kind = {"realtiny": "real", "real6": "real", "intpow2": "integer"}.get(cfg["kind"], cfg["kind"])
+    kind = {"realtiny": "real", "real6": "real", "scaled": "real", "realwide": "real", "intpow2": "integer"}.get(cfg["kind"], cfg["kind"])
     i = int(cfg["variator"].split(":")[1])
     if want_mutator:
         opts = {
@@ -679,6 +738,11 @@ def _alarm(signum, frame):
 # ----------------------------------------------------------------------------
 # the C01 oracle: the property statement, verbatim, on one exposed solution
 # ----------------------------------------------------------------------------
+def _same(a, b):
+    """exact equality of stored and recomputed values (NaN equals NaN: a NaN objective is C07's business, not staleness)"""
+    return a == b or (a != a and b != b)
+
+
 def check_exposed(cfg, problem, s):
     """returns None or a description of how the solution contradicts the property"""
     if s.evaluated is not True:
@@ -687,13 +751,13 @@ def check_exposed(cfg, problem, s):
     decoded = [problem.types[i].decode(s.variables[i]) for i in range(problem.nvars)]
     o, c = raw_eval(cfg["kind"], nobjs, ncons, decoded)
     so = list(s.objectives)
-    if len(so) != len(o) or any(not (a == b) for a, b in zip(so, o)):
+    if len(so) != len(o) or any(not _same(a, b) for a, b in zip(so, o)):
         return "objectives %r are not those of its own variables %r (function gives %r)" % (so, decoded, o)
     sc = list(s.constraints)
-    if len(sc) != len(c) or any(not (a == b) for a, b in zip(sc, c)):
+    if len(sc) != len(c) or any(not _same(a, b) for a, b in zip(sc, c)):
         return "constraint values %r are not those of its own variables %r (function gives %r)" % (sc, decoded, c)
     viol = sum([abs(decl_violation(d, x)) for d, x in zip(cons_decl(cfg), c)])
-    if not (s.constraint_violation == viol):
+    if not _same(s.constraint_violation, viol):
         return "constraint_violation %r but the declared constraints %r give %r for %r" % (s.constraint_violation, cons_decl(cfg), viol, c)
     if not hasattr(s, "feasible") or s.feasible is not (viol == 0):
         return "feasible flag %r but violation is %r" % (getattr(s, "feasible", None), viol)
@@ -716,8 +780,9 @@ def run_config(cfg):
     tracer = None
     problem = None
     close = lambda: None
-    old = signal.signal(signal.SIGALRM, _alarm)
-    signal.alarm(int(cfg.get("timeout", 60)))
+    # watchdog on CPU time (a wall-clock alarm false-alarms when the machine is loaded)
+    limit = C.cpu_time_limit(float(cfg.get("timeout", 60)), exc=RunTimeout)
+    limit.__enter__()
     try:
         try:
             problem = make_problem(cfg)
@@ -781,8 +846,7 @@ def run_config(cfg):
         out["tb"] = traceback.format_exc()[-1500:]
         out["steps"] = tracer.nsteps if tracer else 0
     finally:
-        signal.alarm(0)
-        signal.signal(signal.SIGALRM, old)
+        limit.__exit__(None, None, None)
         if script:
             script.uninstall()
             out["extreme_draws"] = script.n_extreme
@@ -834,7 +898,9 @@ def types_desc(types):
     from platypus import Real, Integer, Binary, Permutation, Subset
     d = []
     for t in types:
-        if isinstance(t, Real):
+        if isinstance(t, ScaledReal):
+            d.append(("real",) + tuple(t.decoded_bounds()))
+        elif isinstance(t, Real):
             d.append(("real", t.min_value, t.max_value))
         elif isinstance(t, Integer):
             d.append(("integer", t.min_value, t.max_value, t.nbits))
@@ -916,6 +982,8 @@ def call_lit(types, call):
 def dedupe_calls(calls):
     seen, out = {}, []
     for a, r in calls:
+        if r is None:
+            continue
         k = repr(a)
         if k in seen:
             if seen[k] != repr(r):
@@ -975,7 +1043,11 @@ def c01_case_lit(res):
 
 def c07_case_lit(res, expect=True):
     types = res["types"]
-    calls = dedupe_calls(res["calls"]) or res["calls"]
+    seen, calls = set(), []
+    for a, r in res["calls"]:          # every distinct argument vector, also those on which the user code raised
+        if repr(a) not in seen:
+            seen.add(repr(a))
+            calls.append((a, r))
     return "K7 %s %s %s" % (C.list_lit([ty_lit(t) for t in types]),
                             C.list_lit([C.list_lit([val_lit(td, v, True) for td, v in zip(types, a)]) for a, _ in calls]),
                             C.bool_lit(expect))
@@ -986,7 +1058,11 @@ def c07_case_lit(res, expect=True):
 # ----------------------------------------------------------------------------
 def applicable(alg, kind):
     if alg == "CMAES":
-        return kind == "real"       # default sigma = 0.5 never samples inside a 1e-15 wide box: the rejection loop spins
+        return kind in ("real", "scaled")   # default sigma = 0.5 never samples inside a 1e-15 wide box: the rejection loop spins
+    if kind == "realwide":
+        # bounds +-1e200 / +-1.7e308: for the algorithms that take a variator (the PSO velocity arithmetic and the CMA-ES
+        # initial mean overflow on such ranges: the theorems' "candidate is not NaN" hypothesis; probed separately)
+        return alg not in ("OMOPSO", "SMPSO", "CMAES")
     return kind in REAL_KINDS or alg not in REAL_ONLY
 
 
@@ -1491,3 +1567,18 @@ def integer_decode_replay(rp):
         return None
     v = t.decode(list(rp["bits"]))
     return None if rp["min"] <= v <= rp["max"] else "decodes to %r" % (v,)
+
+
+def wide_rand_probe():
+    """Real(lb, ub).rand() when ub - lb overflows: random.uniform(lb, ub) = lb + (ub-lb)*random() = inf"""
+    from platypus import Real
+    out = []
+    for (a, b) in ((-1.7e308, 1.7e308), (-1e308, 1e308), (-8e307, 8e307)):
+        random.seed(1)
+        vals = [Real(a, b).rand() for _ in range(5)]
+        bad = [v for v in vals if not (a <= v <= b)]
+        if bad:
+            out.append({"input": "Real(%r, %r).rand() (the initial population of every algorithm)" % (a, b), "returns": repr(bad[0]),
+                        "note": "max_value - min_value overflows to inf, so random.uniform returns inf: the user function receives a value outside "
+                                "the declared bounds (C07) on a legal, finite-bounds configuration"})
+    return out
